@@ -31,7 +31,11 @@ def gen(rng, tier):
         focus["fix"] = True
     if rng.random() < 0.4:
         focus["res_abs"] = True
-    return C.forward_spec(rng, tier, focus)
+    return C.maybe_history(rng, C.forward_spec(rng, tier, focus), 0.3)
+
+
+def extra_candidates(spec):
+    return C.history_candidates(spec)
 
 
 def check_snapshot(res, st, sn, label, k, phase, absence, held_before_finish=None):
@@ -92,7 +96,8 @@ def check_trace(res, tr):
         if ph == "init":
             for tid, tv in sn["T"].items():
                 prev_state[tid] = tv[0]
-                if tv[2] or tv[3]:
+                hist = getattr(tr, "history", None)
+                if (tv[2] or tv[3]) and (hist is None or hist["state"]):
                     res.add("holder_state", "C03.holds_after_initialize", "task %s holds resources right after initialize" % tid, -1)
             continue
         check_snapshot(res, st, sn, label, k, ph, tr.absence)
@@ -112,32 +117,34 @@ def check_trace(res, tr):
             any_held = True
     # the logs: WORKING exactly when holding a task and not absent
     steps = C.full_steps(rec)
+    off = getattr(tr, "log_offset", 0)
     for kind, objs, absent in (("worker", tr.ix.workers, st.w_absent), ("facility", tr.ix.facs, st.f_absent)):
         for r in objs:
-            n = min(len(r.state_record_list), len(r.assigned_task_id_record), len(steps))
+            srl, atr = r.state_record_list[off:], r.assigned_task_id_record[off:]
+            n = min(len(srl), len(atr), len(steps))
             for i in range(n):
                 k = steps[i].t
-                holds = bool(r.assigned_task_id_record[i])
+                holds = bool(atr[i])
                 is_abs = (k in tr.absence) or absent(r.ID, k)
-                logged_working = int(r.state_record_list[i]) == D.R_WORKING
+                logged_working = int(srl[i]) == D.R_WORKING
                 if logged_working != (holds and not is_abs):
                     res.add("log_state", "C03.log_resource_state.%s" % kind,
                             "%s %s is logged %d at step %d with assigned %s (absent=%s)"
-                            % (kind, r.ID, int(r.state_record_list[i]), k, r.assigned_task_id_record[i], is_abs), k)
+                            % (kind, r.ID, int(srl[i]), k, atr[i], is_abs), k)
                     break
     for t in tr.ix.tasks:
-        n = min(len(t.allocated_worker_id_record), len(steps))
-        for i in range(n):
+        n = len(t.allocated_worker_id_record)
+        for i in range(off, n):
             for wid in t.allocated_worker_id_record[i] or []:
                 w = tr.ix.worker.get(wid)
                 if w is None or i >= len(w.assigned_task_id_record) or t.ID not in (w.assigned_task_id_record[i] or []):
                     res.add("log_two_way", "C03.log_two_way.worker", "step %d: task %s logs worker %s but the worker's log does not list the task"
-                            % (steps[i].t, t.ID, wid), steps[i].t)
+                            % (i, t.ID, wid), i)
             for fid in t.allocated_facility_id_record[i] or []:
                 f = tr.ix.fac.get(fid)
                 if f is None or i >= len(f.assigned_task_id_record) or t.ID not in (f.assigned_task_id_record[i] or []):
                     res.add("log_two_way", "C03.log_two_way.facility", "step %d: task %s logs facility %s but the facility's log does not list the task"
-                            % (steps[i].t, t.ID, fid), steps[i].t)
+                            % (i, t.ID, fid), i)
     return any_held
 
 
